@@ -11,6 +11,10 @@ from ..rules import names
 from ..sym import Poly, Term, contains, leaves, show, subterms, term_to_poly
 from . import c02_concat
 
+
+def _n(e):
+    return e.id if isinstance(e, ast.Name) else None
+
 FILES = ["kappadata/datasets/kd_subset.py", "kappadata/datasets/kd_concat_dataset.py", "kappadata/datasets/kd_wrapper.py",
          "kappadata/datasets/kd_dataset.py", "kappadata/utils/getall_as_tensor.py"]
 # members of KDDataset with terminal ("I am the root") semantics that every layer has to continue down the chain
@@ -67,16 +71,123 @@ def _getattr_routes(prog: Program, rep: Report, C: ClassInfo, clause: str):
                     prefix = x[2][0][1]
         if target is not None and target[0] == "self" and prefix:
             seen[prefix] = target[1]
+    table_bad = {}
+    dynamic = False
+    if not all(p_ in seen for p_ in ("getitem_", "getall_")):
+        t_seen, table_bad, dynamic = _table_routes(fa, fi, C)
+        for k_, v_ in t_seen.items():
+            seen.setdefault(k_, v_)
     routes = {}
     for prefix, role in (("getitem_", "per-sample"), ("getall_", "bulk")):
         h = seen.get(prefix)
         ok = h is not None and h in C.methods and h not in routes.values()
         if ok:
             routes[prefix] = h
-        rep.decide(ok, "G9.getattr-routing", fi, f"route:{prefix}", f"'{prefix}*' -> self.{h} (the {role} handler)",
-                   f"'{prefix}*' is routed to {h or 'nothing'}: the {role} accessors are not intercepted by a handler of their own",
+        why_bad = f"'{prefix}*' is routed to {h or 'nothing'}: the {role} accessors are not intercepted by a handler of their own"
+        if not ok and prefix in table_bad:
+            why_bad = table_bad[prefix]
+        elif not ok and h is None and dynamic:
+            ok = None
+            why_bad = f"'{prefix}*': the answer is computed by a dispatch of unrecognised shape (not decided)"
+        rep.decide(ok, "G9.getattr-routing", fi, f"route:{prefix}", f"'{prefix}*' -> self.{h} (the {role} handler)", why_bad,
                    clause=clause)
     return routes
+
+
+def _table_routes(fa, fi, C):
+    """Table-driven dispatch: 'kind = <first segment of item>; if kind in TABLE: return partial(getattr(self, TABLE[kind]), item)'.
+    -> (prefix -> handler, prefix -> why it is wrong, whether some dynamic dispatch is present at all).
+    The key must be the part of the name *before the first* separator: item names contain the separator themselves
+    ('getitem_class_before_grouping'), so a key cut at the last separator misses them."""
+    item = fi.params()[1]
+    me = fi.params()[0]
+    FIRST, LAST = "first", "all-but-last"
+
+    def seg_kind(v, pos):
+        # v: the call/subscript a key variable is bound from; pos: index of the variable in a tuple target (None: whole value)
+        idx = None
+        if isinstance(v, ast.Subscript) and isinstance(v.slice, ast.Constant) and isinstance(v.slice.value, int):
+            idx, v = v.slice.value, v.value
+        if isinstance(v, ast.Subscript) and isinstance(v.slice, ast.Slice) and _n(v.value) == item and v.slice.lower is None and \
+                isinstance(v.slice.upper, ast.Call) and isinstance(v.slice.upper.func, ast.Attribute) and \
+                _n(v.slice.upper.func.value) == item and v.slice.upper.args and isinstance(v.slice.upper.args[0], ast.Constant):
+            m_ = v.slice.upper.func.attr
+            return ({"index": FIRST, "find": FIRST, "rindex": LAST, "rfind": LAST}.get(m_), v.slice.upper.args[0].value)
+        if not (isinstance(v, ast.Call) and isinstance(v.func, ast.Attribute) and _n(v.func.value) == item and v.args
+                and isinstance(v.args[0], ast.Constant) and isinstance(v.args[0].value, str)):
+            return None, None
+        sep = v.args[0].value
+        which = pos if pos is not None else idx
+        m_ = v.func.attr
+        maxsplit = v.args[1].value if len(v.args) > 1 and isinstance(v.args[1], ast.Constant) else None
+        if which != 0:
+            return None, sep
+        if m_ == "partition" or (m_ == "split" and maxsplit in (None, 1)):
+            return FIRST, sep
+        if m_ == "rpartition" or (m_ == "rsplit" and maxsplit == 1):
+            return LAST, sep
+        return None, sep
+    keyvars = {}
+    for st in ast.walk(fi.node):
+        if isinstance(st, ast.Assign) and len(st.targets) == 1:
+            t = st.targets[0]
+            if isinstance(t, ast.Name):
+                k, sep = seg_kind(st.value, None)
+                if sep is not None:
+                    keyvars[t.id] = (k, sep)
+            elif isinstance(t, ast.Tuple) and t.elts and isinstance(t.elts[0], ast.Name):
+                k, sep = seg_kind(st.value, 0)
+                if sep is not None:
+                    keyvars[t.elts[0].id] = (k, sep)
+
+    def table_of(e):
+        d = None
+        if isinstance(e, ast.Attribute) and (_n(e.value) in (me, C.name) or (
+                isinstance(e.value, ast.Call) and _n(e.value.func) == "type")):
+            for K in C.mro_classes():
+                if e.attr in K.class_attrs:
+                    d = K.class_attrs[e.attr]
+                    break
+        elif isinstance(e, ast.Name):
+            vals = [v for _, var, v in fa.stores() if var == e.id]
+            if len(vals) == 1:
+                d = vals[0]
+        if isinstance(d, ast.Dict) and d.keys and all(isinstance(k, ast.Constant) and isinstance(k.value, str) for k in d.keys):
+            out = {}
+            for k, v in zip(d.keys, d.values):
+                out[k.value] = v.value if isinstance(v, ast.Constant) and isinstance(v.value, str) else (
+                    v.id if isinstance(v, ast.Name) else (v.attr if isinstance(v, ast.Attribute) else None))
+            return out
+        return None
+    seen, bad = {}, {}
+    dynamic = False
+    for n, c in fa.calls():
+        # getattr(self, <not a constant>) / TABLE[...] inside the answer
+        if _n(c.func) == "getattr" and len(c.args) >= 2 and _n(c.args[0]) == me and not isinstance(c.args[1], ast.Constant) \
+                and _n(c.args[1]) != item:
+            dynamic = True
+            sel = c.args[1]
+            tab, key = None, None
+            if isinstance(sel, ast.Subscript):
+                tab, key = table_of(sel.value), sel.slice
+            elif isinstance(sel, ast.Call) and isinstance(sel.func, ast.Attribute) and sel.func.attr == "get" and sel.args:
+                tab, key = table_of(sel.func.value), sel.args[0]
+            if tab is None or not isinstance(key, ast.Name) or key.id not in keyvars:
+                continue
+            kind, sep = keyvars[key.id]
+            # the membership test that guards the lookup
+            guarded = any(isinstance(x, ast.Compare) and len(x.ops) == 1 and isinstance(x.ops[0], ast.In) and
+                          _n(x.left) == key.id and table_of(x.comparators[0]) == tab
+                          for x, pol, _t, _n2 in fa.cond_parts_at(n) if pol)
+            for k, h in tab.items():
+                prefix = k + sep
+                if kind == FIRST and guarded and h is not None:
+                    seen[prefix] = h
+                elif kind == LAST:
+                    bad[prefix] = (f"'{prefix}*' is dispatched on the part of the name before the *last* '{sep}': item names "
+                                   f"that contain '{sep}' themselves ('{prefix}class_before_grouping') are not intercepted and "
+                                   f"fall through to the first wrapped dataset with an untranslated index")
+    return seen, bad, dynamic
 
 
 def lookups_pure(prog: Program, rep: Report):
